@@ -402,11 +402,11 @@ impl Space for Links {
 struct ByName {
     nsec: u32,
 }
-const NAMES: [&[u8]; 7] = [b".a", b".ab", b"b.a", b"", b"\xff\xfe", b".a.long", b".abc"];
-const QUERIES: [&str; 9] = [".a", ".ab", "b.a", "", ".a.long", ".abc", ".", "a", ".absent"];
+const NAMES: [&[u8]; 8] = [b".a", b".ab", b"b.a", b"", b"\xff\xfe", b".a.long", b".abc", b".a\x01"];
+const QUERIES: [&str; 10] = [".a", ".ab", "b.a", "", ".a.long", ".abc", ".", "a", ".absent", ".a\u{1}"];
 impl Space for ByName {
     fn name(&self) -> String {
-        format!("section_header_by_name on objects with {} sections whose names range over all {}^{} assignments of {{.a, .ab, b.a, \"\", non-UTF-8, .a.long, .abc, offset past the table}} x 4 encodings; 9 queries; both parsers", self.nsec, NAMES.len() + 1, self.nsec)
+        format!("section_header_by_name on objects with {} sections whose names range over all {}^{} assignments of {{.a, .ab, b.a, \"\", non-UTF-8, .a.long, .abc, .a+0x01, offset past the table}} x 4 encodings; 10 queries; both parsers", self.nsec, NAMES.len() + 1, self.nsec)
     }
     fn size(&self) -> u64 {
         ((NAMES.len() + 1) as u64).pow(self.nsec) * 4
@@ -451,26 +451,39 @@ impl Space for ByName {
                 queries.push(format!("{a}\0"));
             }
         }
+        // the same object once more with the section-name table announced through the SHN_XINDEX
+        // escape (e_shstrndx = 0xffff, shdr[0].sh_link = index, shdr[0].sh_info = another valid index)
+        let strndx = built.shstrndx as u64;
+        let mut escaped = built.bytes.clone();
+        {
+            let site = |r: &str| built.sites.iter().find(|s| s.role == r).unwrap_or_else(|| panic!("no site {r}")).clone();
+            for (r, v) in [("ehdr.e_shstrndx", 0xffffu64), ("shdr[0].sh_link", strndx), ("shdr[0].sh_info", 1)] {
+                let st = site(r);
+                refmodel::layout::put(&mut escaped, st.off, st.width, enc.order, v);
+            }
+        }
+        for (variant, bytes) in [("", &built.bytes), (" (name table through SHN_XINDEX)", &escaped)] {
         for q in queries.iter().map(|s| s.as_str()) {
             let want = truth.iter().position(|t| t.as_deref() == Some(q));
             out.transitions += 2;
-            let slice = subject(|| ElfBytes::<AnyEndian>::minimal_parse(&built.bytes).ok().and_then(|f| f.section_header_by_name(q).ok()).map(|o| o.map(|h| h.sh_flags)));
-            let stream = subject(|| ElfStream::<AnyEndian, _>::open_stream(Cursor::new(built.bytes.clone())).ok().and_then(|mut f| f.section_header_by_name(q).ok().map(|o| o.map(|h| h.sh_flags))));
+            let slice = subject(|| ElfBytes::<AnyEndian>::minimal_parse(bytes).ok().and_then(|f| f.section_header_by_name(q).ok()).map(|o| o.map(|h| h.sh_flags)));
+            let stream = subject(|| ElfStream::<AnyEndian, _>::open_stream(Cursor::new(bytes.clone())).ok().and_then(|mut f| f.section_header_by_name(q).ok().map(|o| o.map(|h| h.sh_flags))));
             for (who, r) in [("ElfBytes", slice), ("ElfStream", stream)] {
                 match r {
                     Err(m) => out.violate(format!("panic:{who}::section_header_by_name in {}", panic_site(&m)), m),
-                    Ok(None) => out.violate(format!("by-name-errors:{who}"), format!("{} names {:?} query {:?}: lookup returned an error", enc.name(), truth, q)),
+                    Ok(None) => out.violate(format!("by-name-errors:{who}"), format!("{}{variant} names {:?} query {:?}: lookup returned an error", enc.name(), truth, q)),
                     Ok(Some(got)) => {
                         // sections are identified by their sh_flags tag (index for 1..=nsec)
                         let gi = got.map(|f| if f == 0 { usize::MAX } else { f as usize });
                         let wi = want.map(|w| if w == 0 || w > self.nsec as usize { usize::MAX } else { w });
                         if gi != wi {
-                            out.violate(format!("by-name-wrong-section:{who}"), format!("{} names {:?} query {:?}: got section tag {:?}, the first section with that name is {:?}", enc.name(), truth, q, gi, wi));
+                            out.violate(format!("by-name-wrong-section:{who}"), format!("{}{variant} names {:?} query {:?}: got section tag {:?}, the first section with that name is {:?}", enc.name(), truth, q, gi, wi));
                         }
                         dig.u64(gi.unwrap_or(0) as u64);
                     }
                 }
             }
+        }
         }
         out.nontrivial(dig.get() ^ idx);
     }
@@ -555,7 +568,7 @@ pub fn build_def(tier: Tier) -> CheckDef {
         level: "model_checking",
         rule: "complete enumeration of generated objects (all 48 admissible presence subsets of the common constructs x encodings x section-order rotations; every sh_link target; every assignment of a name alphabet to the sections; every exported section/segment type value +-1) with cross-path oracles: one-pass discovery == targeted accessors == ground truth, by-name == first section whose name string equals the query, typed views refused iff the type mismatches, .dynamic via section == via PT_DYNAMIC. non-trivial = object on which the paths return data".into(),
         assumptions: vec!["scope as stated by the property: at most one section of each kind; a PT_DYNAMIC segment is accompanied by a .dynamic section whenever section headers exist".into()],
-        spaces: vec![Box::new(Presence { all_rotations: tier == Tier::Thorough }), Box::new(Links), Box::new(NoNull), Box::new(ByName { nsec: tier.pick(4, 5) }), Box::new(TypeGate)],
+        spaces: vec![Box::new(Presence { all_rotations: tier == Tier::Thorough }), Box::new(Links), Box::new(NoNull), Box::new(ByName { nsec: tier.pick(4, 5) }), Box::new(TypeGate), Box::new(super::c14::ThroughFile)],
         abort_is_violation: false,
         hang_is_violation: false,
         exhaustive: true,
